@@ -8,5 +8,6 @@ CONSTANTS
   FrozenCloseOk = TRUE
   SerialiseKill = FALSE
   MaxT = 12
+  Lag = 0
 INVARIANTS GracefulRespected
 CHECK_DEADLOCK FALSE
